@@ -51,16 +51,20 @@ func leafKey(l envLeaf) string { return strings.Join(l.path, ".") }
 func checkC14(c *Ctx) {
 	r := c.RNG
 	res := c.Res
+	res.ASCIIModel = true
 	res.Rule = "random config struct types as C11 plus embedded structs, alias tags (dialsalias) on ~40% of the leaves at any depth; per aliased leaf one of neither / primary / alias / both (both on at most one leaf in ~30% of the cases), other leaves set with 45%; " +
 		"each case through env.Source (real environment; also vs the Lean model), an alias-wrapped JSON decoder as ez builds it, flag.Set and pflag.Set; oracle per leaf (primary or alias value, unset, error naming the field). " +
 		"plus a stream of configs holding a slice / array of structs whose ELEMENT fields (by value: string, int, bool, struct, named scalar; pointer; slice) carry aliases, through the alias-wrapped JSON decoder, four patterns per element and field (set = non-zero there). " +
 		"plus a stream of configs whose aliased fields are themselves collections ([]struct, []struct with aliased element fields, []string, []int, string maps), each supplied as a list of 0-3 entries (35% explicitly empty) under neither / primary / alias / both, same decoder. " +
 		"plus ez itself (JSON / YAML entry points, private empty flag set): aliased leaves at two depths x four patterns x FileFieldNameEncoder none / lower_snake / kebab / UPPER_SNAKE / lowerCamel, file keys written in the file's naming convention. " +
+		"plus 2-4 flag.Sets over ONE standard-library FlagSet (the flags exist from the second Set on; in 35% the application registered one alias or primary name by hand first): four patterns per aliased leaf at two depths, every round (oracle only). " +
+		"field names include words ending in a multi-byte lower-case letter (CaféURL, MenüHTML): those types are outside the ASCII case-conversion model and judged by the oracle alone. " +
 		"non-trivial: an aliased leaf below the top level or >= 2 aliased leaves; distinct = by type + pattern vector + source"
 	n := c.scale(1500, 20000)
 	c14Elements(c, n/3)
 	c14Collections(c, n/3)
 	c14Ez(c, c.scale(300, 4000))
+	c14SameFlagSet(c, c.scale(300, 6000))
 	for i := 0; i < n; i++ {
 		g := &envTypeGen{r: r, used: map[string]bool{}, alias: true, embed: r.Chance(40)}
 		T := g.genStruct(1+r.Intn(3), nil, nil)
